@@ -2,6 +2,7 @@ package c11
 
 import (
 	"encoding/json"
+	"strconv"
 	"fmt"
 	"net"
 	"os"
@@ -167,6 +168,7 @@ type run struct {
 	fired     chan struct{}
 	split     int32 // bolt clients send frames in pieces (set after SIGHUP)
 	phaseMissed int32
+	sigFlag     int32
 
 	mu      sync.Mutex
 	results []*result
@@ -181,12 +183,13 @@ type probe struct {
 	AtMs   int64  `json:"at_ms"`
 	Kind   string `json:"kind"` // ok | connect-refused | connect-timeout | connect-error
 	Proto  string `json:"proto"`
+	Ours   bool   `json:"ours,omitempty"` // a connect that succeeded after the signal: the accepting listener belongs to our mosn (checked via /proc)
 	After  bool   `json:"after_sig"`
 	Answer string `json:"answer,omitempty"`
 }
 
 func (r *run) ms() int64           { return time.Since(r.t0).Milliseconds() }
-func (r *run) isSignalled() bool   { r.gate.RLock(); defer r.gate.RUnlock(); return r.signalled }
+func (r *run) isSignalled() bool   { return atomic.LoadInt32(&r.sigFlag) == 1 } // never takes the gate: it is called from inside gated sections
 func (r *run) splitNow() bool      { return atomic.LoadInt32(&r.split) == 1 }
 func (r *run) doneOne()            { atomic.AddInt32(&r.inflight, -1) }
 func (r *run) stopped() bool       { select { case <-r.stop: return true; default: return false } }
@@ -229,6 +232,7 @@ func (r *run) fireAt(reached bool) {
 		r.tsig = time.Now()
 		r.sigErr = r.p.Signal(r.sig)
 		r.signalled = true
+		atomic.StoreInt32(&r.sigFlag, 1)
 		r.gate.Unlock()
 		if r.sig == syscall.SIGHUP {
 			atomic.StoreInt32(&r.split, 1)
@@ -400,6 +404,9 @@ func (r *run) prober() {
 			pr.Kind = classifyDial(err)
 		} else {
 			rstClose(c)
+			if after && r.cs.Signal == "SIGTERM" {
+				pr.Ours = proc.ListenerOwnedByGroup(portOf(r.addrs[proto]), r.p.Pid)
+			}
 		}
 		r.recordProbe(pr)
 		n++
@@ -408,6 +415,22 @@ func (r *run) prober() {
 		case <-time.After(8 * time.Millisecond):
 		}
 	}
+}
+
+func portOf(addr string) int {
+	_, p, _ := net.SplitHostPort(addr)
+	n, _ := strconv.Atoi(p)
+	return n
+}
+
+// stillOurs: a listener of our mosn still exists on one of the case's ports.
+func (r *run) stillOurs() bool {
+	for _, proto := range protos {
+		if proc.ListenerOwnedByGroup(portOf(r.addrs[proto]), r.p.Pid) {
+			return true
+		}
+	}
+	return false
 }
 
 // allRefused: after the signal, a connect to every listener has been refused.
@@ -632,14 +655,18 @@ func execute(cs Case) (o *outcome, r *run, infra string) {
 		r.holder = newPlan(fmt.Sprintf("k%d-holder", r.no), 64, 640, 0)
 		r.holder.HoldAt = "up-hold"
 	}
-	released := false
+	released, holderReleased := false, false
+	releaseHolder := func() {
+		if r.holder != nil && !holderReleased {
+			holderReleased = true
+			close(r.holder.release)
+		}
+	}
 	release := func() {
+		releaseHolder()
 		if !released {
 			released = true
 			close(r.desig.release)
-			if r.holder != nil {
-				close(r.holder.release)
-			}
 		}
 	}
 	defer release()
@@ -694,11 +721,14 @@ func execute(cs Case) (o *outcome, r *run, infra string) {
 				}
 				select {
 				case <-capT:
-					o.ListenOpen = true
+					o.ListenOpen = r.stillOurs() // somebody else may have bound a port our mosn already released
 					break wait
 				case <-time.After(2 * time.Millisecond):
 				}
 			}
+			// the held extra request goes on at once (it only kept the process draining until the listeners were seen
+			// closed); the designated request goes on after its generated pause
+			releaseHolder()
 			time.Sleep(post)
 			release()
 		}
